@@ -119,7 +119,7 @@ def _cases(draw):
         if not qs:
             break
         n, anc = g.pick(qs)
-        prop = g.name("p")
+        prop = g.name("p") if g.p("_", 0.7) else g.pick(["geo.lat", "v1.2", "a-b", "_x", "Prop.Name-1"]) + str(g.integer(0, 99))
         if g.p("_", 0.15):
             prop = g.pick(list(BAD_PROP))
             meta["bad"].append("saveto:" + BAD_PROP[prop])
